@@ -27,10 +27,10 @@ from concurrent.futures import ThreadPoolExecutor
 from pathlib import Path
 
 import common
-from props import c07gen, c07shapes
+from props import c07blocks, c07enc, c07gen, c07shapes
 
 PID = "C07"
-TABLES = ["C07"]
+TABLES = ["C07", "C17", "RC"]
 TIMEOUT_S = 30
 WORKERS = 16
 ANSI = re.compile(r"\x1b\[[0-9;]*m")
@@ -69,12 +69,19 @@ def materialise(root: Path, case):
 def run_cli(root: Path, case):
     """One judged run of the real command line. Optional case keys (round 3): `cwd` (directory below the project root to
     run in; the module search path starts there), `pre_runs` (the same command is run that many times first: a cache
-    file written by run 1 is found by run 2), `{ABS}` in the target / an option value (absolute path of the project root)."""
+    file written by run 1 is found by run 2), `{ABS}` in the target / an option value (absolute path of the project root).
+    Round 4: `env` (variables set for the child; value None = unset), `stdout_encoding` (stdout must DECODE in it: an
+    undecodable stdout is not well-formed output), `cache_check` (path of the cache file: after an exit-0 run it must be JSON)."""
     d = materialise(root, case)
     env = dict(os.environ, PYTHONHASHSEED="0", HOME=str(d / ".home"), XDG_CACHE_HOME=str(d / ".home" / ".cache"))
     env.pop("PYTHONPATH", None)
     if os.environ.get("PYTHONPATH"):
         env["PYTHONPATH"] = os.environ["PYTHONPATH"]
+    for k, v in (case.get("env") or {}).items():
+        if v is None:
+            env.pop(k, None)
+        else:
+            env[k] = v
     (d / ".home").mkdir(exist_ok=True)
     sub = lambda x: x.replace("{ABS}", str(d))  # noqa: E731
     opts, target = [sub(o) for o in case["opts"]], sub(case["target"])
@@ -107,6 +114,19 @@ def run_cli(root: Path, case):
             p.kill()
             o, e = p.communicate()
     out, err = o.decode("utf-8", "replace"), e.decode("utf-8", "replace")
+    if case.get("stdout_encoding"):
+        try:
+            out = o.decode(case["stdout_encoding"], "strict")
+        except UnicodeDecodeError as ex:
+            err += f"\nC07-STDOUT-UNDECODABLE {case['stdout_encoding']}: {ex}\n"
+    if case.get("cache_check") and rc == 0:
+        cf = Path(cwd) / case["cache_check"]
+        try:
+            json.loads(cf.read_bytes())
+        except FileNotFoundError:
+            pass                                    # (a cache hit / `-o` mode that writes none: nothing to check)
+        except Exception as ex:  # noqa: BLE001
+            err += f"\nC07-CACHE-MALFORMED {type(ex).__name__}: {str(ex)[:120]}\n"
     dt = time.time() - t0
     shutil.rmtree(d, ignore_errors=True)
     return rc, out, err, to, dt
@@ -343,8 +363,16 @@ def classify(rc, out, err, timed_out, opts):
         return "timeout", "timeout", clean[-600:]
     if "Traceback (most recent call last)" in clean:
         exc, fn = parse_traceback(clean)
+        if exc == "UnicodeEncodeError":
+            # which character the stream refused (one character: named; several: their count is input-dependent)
+            m = re.search(r"can't encode character '([^']+)' in position", clean)
+            fn += f"[{m.group(1)}]" if m else "[several-characters]"
         return "traceback", f"unhandled:{exc}:{fn}", clean[-1500:]
     nonempty = [l for l in clean.splitlines() if l.strip()]
+    if rc == 0 and "C07-STDOUT-UNDECODABLE" in clean:
+        return "other", "other:exit0-stdout-not-in-the-stream-encoding", clean[-400:]
+    if rc == 0 and "C07-CACHE-MALFORMED" in clean:
+        return "other", "other:exit0-cache-file-not-json", clean[-400:]
     if rc == 0:
         ok, kind = stdout_ok(out, opts)
         if ok:
@@ -959,6 +987,9 @@ def file_tie(rng, n_modules, res, model):
 
     work = [(n, t, src) for n, t, src in FILE_WITNESSES]
     work += [(None, t, src) for t, src in filegen.CURATED + filegen.PIPELINE_CURATED]
+    # round 4: definitions of every kind at every module-level block position (the builder must register what the
+    # FileAnalyser reaches: `for … else`, `while … else`, `try … finally`, `with`, … ; `match` / `except*` are K11m / K11t)
+    work += c07blocks.tie_modules(rng, "quick")
     for i in range(n_modules):
         gen = filegen.gen_pipeline_module if i % 2 == 0 else filegen.gen_file_module
         src, target = gen(rng, hostile=0.1 if i % 4 < 2 else 0.02)
@@ -1098,7 +1129,17 @@ def run(tier, seed, build):
                 "imported module, outside the project, dangling, loops, chains), hard links, two names for one file, target spellings, "
                 "targets outside the module search path, the cache file as directory / link — calls made through every name. (vii) whole-run "
                 "tie: real parse_and_analyse_file + resolve_import + show_* in-process vs Lean (op c07_run): import_irs keys, RattrStats "
-                "integers, output-stage outcome, resolve_import verdict per import statement; read() line count and show_stats on a grid")
+                "integers, output-stage outcome, resolve_import verdict per import statement; read() line count and show_stats on a grid. "
+                "(viii, round 4) module-level definitions (def / async def / class without and with __init__ / Enum / IntEnum / NamedTuple / dataclass / "
+                "static-only / nested class, lambda, namedtuple(), imports of every form, star import, assignment, walrus) at EVERY block position "
+                "of a module (if / elif / else, for / else, while / else, try body / handlers / else / finally, except*, with, match cases; nestings "
+                "to depth 3) as the target, a followed import (from / import / star) and a package __init__ (props/c07blocks.py), and in file_tie "
+                "against NoCrashShapeFile. (ix, round 4) the OUTPUT side: every document (-o results | ir | cacheable | stats | silent, -C cache, a "
+                "second run on the cache) x names that stress the encoder (lone surrogates, unpaired pairs, astral, NUL / ESC / U+2028 / DEL / BOM "
+                "in getattr-family literal names, subscripts, keywords, namedtuple fields, rattr_results names; non-ASCII identifiers in every "
+                "role; non-ASCII file / module / package names) x environment (PYTHONIOENCODING ascii / ascii:strict / utf-8 / latin-1 / cp1252, "
+                "LANG=C, a real ASCII locale) (props/c07enc.py): stdout must decode in the stream's encoding and parse, a written cache file must "
+                "be JSON; encode tie: Lean OutEnc.dumpStr / writable vs CPython json + codecs vs the real serialise()")
     rng = random.Random(seed)
     n_projects = 400 if tier == "quick" else 2400
     n_sweep = 60 if tier == "quick" else 400
@@ -1119,6 +1160,10 @@ def run(tier, seed, build):
         # so the random projects below are the same as before for a given seed)
         rng3 = random.Random(seed * 7919 + 3)
         for c in c07shapes.degenerate_corpus(rng3, tier) + c07shapes.fs_shape_corpus(rng3, tier):
+            cases.append(dict(c, expect=None))
+        # round 4: definitions at every module-level block position x place; the output side (documents x text x environment)
+        rng4 = random.Random(seed * 7919 + 4)
+        for c in c07blocks.block_corpus(rng4, tier) + c07enc.encoding_corpus(rng4, tier):
             cases.append(dict(c, expect=None))
         for i in range(n_projects):
             p = c07gen.gen_project(rng, hostile=0.1)
@@ -1156,7 +1201,8 @@ def run(tier, seed, build):
             try:
                 for name, fn in (("function_tie", lambda: function_tie(rng, n_fn_modules, tie_res, model)),
                                  ("file_tie", lambda: file_tie(rng, n_file_modules, tie_res, model)),
-                                 ("round3_tie", lambda: c07shapes.tie(random.Random(seed * 7919 + 5), tier, tie_res, model, tie_tmp, materialise))):
+                                 ("round3_tie", lambda: c07shapes.tie(random.Random(seed * 7919 + 5), tier, tie_res, model, tie_tmp, materialise)),
+                                 ("encode_tie", lambda: c07enc.encode_tie(random.Random(seed * 7919 + 6), tier, tie_res, model))):
                     w0 = time.time()
                     fn()
                     phases[name] = {"wall_s": round(time.time() - w0, 1)}
@@ -1215,6 +1261,11 @@ def run(tier, seed, build):
         for i, sg in zip(need, refined):
             verdicts[i] = (verdicts[i][0], sg, verdicts[i][2])
             res.count("refined:" + sg.split(":", 2)[-1])
+        # the K11 family (`ClassAnalyser.symbol`: the class has no Class symbol): WHY is read off the project source
+        for i, v in enumerate(verdicts):
+            if v[1] is not None and v[1].startswith(c07blocks.K11_PREFIX):
+                verdicts[i] = (v[0], c07blocks.refine_k11(v[1], cases[i], v[2], c07shapes._file_text), v[2])
+                res.count("refined:" + verdicts[i][1].split(":", 2)[-1])
         # ---- a would-be VIOLATION (signature not among the known findings) must reproduce: the tree under test or the
         # machine may have been disturbed while that one subprocess ran (seen once: rattr failed to import itself while
         # another process was rewriting the checkout). Re-run such cases; report only what recurs.
@@ -1228,6 +1279,8 @@ def run(tier, seed, build):
                 v = (v[0], f"{v[1]}[{relative_import_class(tmp, cases[i])}]", v[2])
             if v[1] in c07shapes.REFINED:
                 v = (v[0], c07shapes.refine(run_cli, tmp, cases[i], v[1]), v[2])
+            if v[1] is not None and v[1].startswith(c07blocks.K11_PREFIX):
+                v = (v[0], c07blocks.refine_k11(v[1], cases[i], v[2], c07shapes._file_text), v[2])
             return o, v
 
         suspects = [i for i, v in enumerate(verdicts) if v[1] is not None and v[1] not in known_sigs and v[0] != "timeout"
@@ -1277,7 +1330,7 @@ def run(tier, seed, build):
                     res.count("opt:" + o + (("=" + v) if v else ""))
             small = {"target": c["target"], "opts": c["opts"], "row": c.get("row"),
                      "files": c["files"]}
-            for k in ("cwd", "pre_runs"):
+            for k in ("cwd", "pre_runs", "env", "stdout_encoding", "cache_check"):
                 if c.get(k):
                     small[k] = c[k]
             if cls != "exit0:results" or c["kind"] == "corpus":
@@ -1351,6 +1404,8 @@ def run(tier, seed, build):
         "[interp] a project containing symbolic links (also dangling ones and loops) is a valid input: the target is a syntactically valid module, and an import that cannot be followed must end in rattr's own diagnostic",
         "the ImportError of resolve_import and the ValueError of the relative-import visitors are signed by cause: a second run prints the raising frame's locals (module name, keys of import_irs, current file); the class is then decided by facts rattr does not compute (origin path and real path of each module by a plain directory walk of sys.path, the import statements of the project files by ast, Python's identifier rule)",
         "show_stats divides by the sum of five perf_counter differences; that the sum is not 0.0 is an assumption of C07_show_stats_no_crash (the first timer spans opening and reading the target)",
+        "[interp] the environment of the process (PYTHONIOENCODING, locale) is part of 'every option combination' in the wide reading: a stdout that cannot carry a character is a configuration a user can be in; rattr must then still end with well-formed output or its own diagnostic (K26 is the one place where it does not)",
+        "the signature family `unhandled:ValueError:ClassAnalyser.symbol@<visitor>` is refined by cause read off the project SOURCE: the class named in the message, the chain of enclosing block kinds of its definition (collapsed to `within:match-case` / `within:try-except-star` below such a block — two known findings — and spelled out in full everywhere else) and what else binds its name",
         "(v) module tie: the Lean predicates NoCrashShapeFile / NoCrashShapePipeline on every generated single-file module vs the real stages run in-process: NoCrashShapeFile => the real compile_root_context and FileAnalyser do not raise and rattr.__main__.main raises at most ValueError / ImportError; NoCrashShapePipeline => rattr.__main__.main does not raise at all; a failure of either implication is reported as a disagreement (model error)",
     ]
     return res
@@ -1364,11 +1419,14 @@ def replay(path):
         return 0
     tmp = Path(tempfile.mkdtemp(prefix="rattr-c07-replay-"))
     try:
-        c = {"files": case["files"], "opts": case["opts"], "target": case["target"], "cwd": case.get("cwd"), "pre_runs": case.get("pre_runs")}
+        c = {"files": case["files"], "opts": case["opts"], "target": case["target"], "cwd": case.get("cwd"), "pre_runs": case.get("pre_runs"),
+             "env": case.get("env"), "stdout_encoding": case.get("stdout_encoding"), "cache_check": case.get("cache_check")}
         rc, out, err, to, dt = run_cli(tmp, c)
         cls, sig, detail = classify(rc, out, err, to, case["opts"])
         if sig in c07shapes.REFINED:
             sig = c07shapes.refine(run_cli, tmp, c, sig)
+        if sig is not None and sig.startswith(c07blocks.K11_PREFIX):
+            sig = c07blocks.refine_k11(sig, c, detail, c07shapes._file_text)
         print(json.dumps({"exit": rc, "class": cls, "signature": sig, "stderr_tail": ANSI.sub("", err)[-1500:], "stdout_head": out[:300]}, indent=1))
     finally:
         shutil.rmtree(tmp, ignore_errors=True)
